@@ -212,3 +212,27 @@ class C11(E1Prop):
 
     def harnesses(self, tier):
         return [H("prop_C11", "prop_C11.cpp", shards=8)]
+
+
+@prop("C05")
+class C05(E1Prop):
+    pid = "C05"
+    rule = ("cases = (ordered pair of storage orders from {row-major, Morton BMI2, Morton portable, Hilbert}, N in 1..4 (Hilbert pairs N=2), float/double "
+            "storage with M rotating, extent vector, content seed, copying or moving converting constructor); whole-stack pairs "
+            "affine<I1<L1<array>>> -> affine<I2<L2<array>>> with I in {nearest, linear} and an affine matrix of arbitrary bit patterns. Every extent "
+            "vector up to B_N enumerated per pair, boundary-biased random extents beyond. Source filled through a view with pairwise distinct bit "
+            "patterns. Oracle: converted field reports the same extents / matrix bits, holds the same bits at every lattice coordinate, the source is "
+            "unchanged (values and dump bytes) after a copying conversion, converting back reproduces the original dump byte-for-byte; ASan live. "
+            "non-trivial = the two compositions differ and the extents are not an equal power-of-two cube; distinct by (pair, extents, seed, ctor)")
+    min_eval = 3000
+    assumptions = ("coordinate scalar size_t (what the benchmarks convert between); CUDA device storage is not exercised (no CUDA toolchain)",)
+    level_text = ("Generated-input search over all ordered layout pairs with complete enumeration of small extent vectors, value-for-value and byte-for-byte "
+                  "round-trip oracles, under ASan.")
+
+    def harnesses(self, tier):
+        b = core.SAN + ["-mbmi2"]
+        return [H("prop_C05_n13", "prop_C05.cpp", shards=9, defines=["VF_GROUP=0"], flags=b),
+                H("prop_C05_n2", "prop_C05.cpp", shards=8, defines=["VF_GROUP=1"], flags=b),
+                H("prop_C05_n2_nobmi2", "prop_C05.cpp", shards=8, defines=["VF_GROUP=1"]),
+                H("prop_C05_n4", "prop_C05.cpp", shards=9, defines=["VF_GROUP=2"], flags=b),
+                H("prop_C05_stacks", "prop_C05.cpp", shards=9, defines=["VF_GROUP=3"], flags=b)]
